@@ -136,8 +136,8 @@ Raise == [k |-> "raise"]
 BaseUnits == <<"m", "s", "g", "rad">>
 \* a unit of another dimension than dim - and not of the inverse dimension either, between which
 \* the units module converts (C04): one base dimension that dim does not contain
-WrongDim(dim) == IF dim[1] = 0 THEN <<1, 0, 0, 0>> ELSE IF dim[2] = 0 THEN <<0, 1, 0, 0>>
-                 ELSE IF dim[3] = 0 THEN <<0, 0, 1, 0>> ELSE <<dim[1] + 1, 0, 0, 0>>
+WrongDim(dim) == IF dim[1] = 0 THEN <<1, 0, 0, 0, 0>> ELSE IF dim[2] = 0 THEN <<0, 1, 0, 0, 0>>
+                 ELSE IF dim[3] = 0 THEN <<0, 0, 1, 0, 0>> ELSE <<dim[1] + 1, 0, 0, 0, 0>>
 WrongUnits(dim) == LET w == WrongDim(dim) IN
                    <<IF w[1] # 0 THEN "m" ELSE "", IF w[2] # 0 THEN "s" ELSE "", IF w[3] # 0 THEN "g" ELSE "", "">>
 Req(us, dim, out) == [us |-> us, dim |-> dim, out |-> out, sc |-> ReqScale(us, dim)]
@@ -203,14 +203,16 @@ TmplRecord ==
    tags |-> TFeatures(s)]
 TmplRefines == TClass(s) = "value" => (TMach(s) = TIdeal(s) \/ TFeatures(s) # {})
 
-ExtraNodes == << [name |-> "s", ty |-> "str", str |-> "Hello", arr |-> <<>>, u |-> ""],
-                 [name |-> "v", ty |-> "float", str |-> "", arr |-> <<Q(15, 1, -1), Q(25, 1, -1), Q(35, 1, -1)>>, u |-> "cm"],
-                 [name |-> "mm", ty |-> "float2", str |-> "", u |-> "cm",
+\* (dstr / dadd: the decoy definition of the modified environment - another string, every element + dadd)
+ExtraNodes == << [name |-> "s", ty |-> "str", str |-> "Hello", arr |-> <<>>, u |-> "", dstr |-> "World", dadd |-> 0],
+                 [name |-> "v", ty |-> "float", str |-> "", dstr |-> "", dadd |-> 8, arr |-> <<Q(15, 1, -1), Q(25, 1, -1), Q(35, 1, -1)>>, u |-> "cm"],
+                 [name |-> "mm", ty |-> "float2", str |-> "", u |-> "cm", dstr |-> "", dadd |-> 8,
                   arr |-> << <<Q(15, 1, -1), Q(25, 1, -1)>>, <<Q(35, 1, -1), Q(45, 1, -1)>> >>] >>
 TmplToks == {"T", "{", "}"} \cup TRefs \cup TSlices \cup TFmts
 Meta == [mode |-> "meta",
          atoms |-> [t \in AllAtomToks |-> AT(t)],
          nodes |-> NodeToks, cnodes |-> CustomNodeToks, extra |-> ExtraNodes,
+         decoy |-> [t \in NodeToks \cup CustomNodeToks |-> DecoyN(t)],
          units |-> [u \in UnitSyms |-> UText(u)], custom |-> CustomUnits,
          tplain |-> [t \in TmplToks |-> TPlain(t)], fn1 |-> Fn1Table]
 
